@@ -133,13 +133,25 @@ def run_case(rec: Recorder, case: dict[str, typing.Any]) -> None:
             lvl = {"retries": plvl} if case["policy_lvl2"] is not None else {}
             if case["client"] == "pool":
                 client: typing.Any = urllib3.HTTPConnectionPool("a.test", 80, **lvl)
-                result = client.urlopen(case["method"], "/d0/h0", body=body, headers=hdrs, **kw)
+                first_url = "/d0/h0"
             elif case["client"] == "manager":
                 client = urllib3.PoolManager(**lvl)
-                result = client.urlopen(case["method"], start, body=body, headers=hdrs, **kw)
+                first_url = start
             else:
                 client = urllib3.ProxyManager("http://proxy.test:3128", **lvl)
-                result = client.urlopen(case["method"], start, body=body, headers=hdrs, **kw)
+                first_url = start
+            # earlier requests on the same client with other per-request policies: the policy in effect for the judged
+            # request must not depend on what the client converted or cached before
+            for wp in case.get("warmup", []):
+                rec.mon("warmup_request")
+                try:
+                    client.urlopen("GET", first_url, headers={"X-Keep": "k"}, **({} if wp == "unset" else {"retries": build_policy(wp)}))
+                except HTTPError:
+                    pass
+            if case.get("warmup"):
+                server.log.clear()
+                server.failed.clear()
+            result = client.urlopen(case["method"], first_url, body=body, headers=hdrs, **kw)
         except BaseException as e:  # noqa: BLE001
             if isinstance(e, (KeyboardInterrupt, SystemExit)):
                 raise
@@ -285,6 +297,19 @@ def run_shard(ctx: Ctx, rec: Recorder) -> None:
                             case = {"client": client, "hops": hops, "loop": False, "policy_req": pol if placement == "request" else None, "policy_lvl2": pol if placement == "level2" else None, "method": "GET", "redirect_kw": redirect_kw, "fail_first": fail}
                             rec.case(["fail", case])
                             run_case(rec, case)
+    # (i-c) the same client used before with other per-request policies (0 / False / True / 1 / Retry objects hash and compare alike)
+    warm = [0, False, 1, True, {"redirect": 0}, {"total": 0}, "unset"]
+    for client in ("manager", "proxy", "pool"):
+        for w in warm:
+            for pol in (0, False, 1, True, 2, {"redirect": 1}, {"redirect": 0, "raise_on_redirect": False}):
+                for placement in ("request", "level2"):
+                    idx += 1
+                    if not ctx.mine(idx) or repr(w) == repr(pol):
+                        continue
+                    hops = [{"code": 302, "to": "A" if client == "pool" else "B", "form": "absolute"}, {"code": 307, "to": "A", "form": "absolute"}]
+                    case = {"client": client, "hops": hops, "loop": False, "policy_req": pol if placement == "request" else None, "policy_lvl2": pol if placement == "level2" else None, "method": "GET", "redirect_kw": True, "warmup": [w]}
+                    rec.case(["warm", case])
+                    run_case(rec, case)
     # (ii) every Location form x code, two hops
     for form in FORMS + ["missing"]:
         for code in CODES:
